@@ -191,8 +191,8 @@ Definition ref_afe_fields (e : PacketAdaptationExtensionField) : list fld :=
 (* Table 2-6: adaptation_field_length(8); if > 0: discontinuity_indicator random_access_indicator
    elementary_stream_priority_indicator PCR_flag OPCR_flag splicing_point_flag
    transport_private_data_flag adaptation_field_extension_flag; PCR; OPCR; splice_countdown(8);
-   transport_private_data_length(8) + bytes; extension; stuffing bytes 0xFF *)
-Definition ref_af_fields (af : PacketAdaptationField) : list fld :=
+   transport_private_data_length(8) + bytes; extension; then the stuffing bytes *)
+Definition ref_af_prefix_fields (af : PacketAdaptationField) : list fld :=
   if PacketAdaptationField_IsOneByteStuffing af then [(8%nat, 0)] else
   [(8%nat, ref_af_length af);
    flag (PacketAdaptationField_DiscontinuityIndicator af);
@@ -213,17 +213,28 @@ Definition ref_af_fields (af : PacketAdaptationField) : list fld :=
   ++ (if PacketAdaptationField_HasAdaptationExtensionField af
       then match PacketAdaptationField_AdaptationExtensionField af with
            | Some e => ref_afe_fields e | None => [] end
-      else [])
-  ++ repeat (8%nat, 255) (Z.to_nat (PacketAdaptationField_StuffingLength af)).
+      else []).
 
-(* sync_byte 0x47, header, adaptation field when adaptation_field_control is 1x, payload *)
-Definition ref_packet_fields (p : Packet) : list fld :=
+(* number of stuffing bytes in the adaptation field of a packet, and the value ISO prescribes for them *)
+Definition stuffing_of (p : Packet) : Z :=
+  match Packet_AdaptationField p with Some af => PacketAdaptationField_StuffingLength af | None => 0 end.
+Definition ff_stuffing (p : Packet) : list Z := repeat 255 (Z.to_nat (stuffing_of p)).
+
+(* sync_byte 0x47, header, adaptation field when adaptation_field_control is 1x (with the given stuffing bytes),
+   payload *)
+Definition ref_packet_fields_stuffed (p : Packet) (stuffing : list Z) : list fld :=
   (8%nat, 71) :: ref_header_fields (Packet_Header p)
   ++ (if PacketHeader_HasAdaptationField (Packet_Header p)
-      then match Packet_AdaptationField p with Some af => ref_af_fields af | None => [] end
+      then match Packet_AdaptationField p with
+           | Some af => ref_af_prefix_fields af ++ byte_fields stuffing | None => [] end
       else [])
   ++ byte_fields (Packet_Payload p).
 
+(* the reference encoding: stuffing bytes 0xFF *)
+Definition ref_packet_fields (p : Packet) : list fld := ref_packet_fields_stuffed p (ff_stuffing p).
+
+Definition ref_packet_bytes_stuffed (p : Packet) (stuffing : list Z) : list Z :=
+  bytes_of_bits (fbits (ref_packet_fields_stuffed p stuffing)).
 Definition ref_packet_bytes (p : Packet) : list Z := bytes_of_bits (fbits (ref_packet_fields p)).
 
 (* a conformant 188-byte buffer: the reference encoding of a well-formed packet *)
